@@ -159,18 +159,30 @@ fn cases(tier: Tier) -> &'static Vec<Case> {
                     nontrivial: false,
                 });
             }
-            // protocol upgrade: all remaining bytes of the connection, verbatim
-            for (rl, rp) in read_programs(n, tier) {
-                let mut bytes = b"GET /ws HTTP/1.1\r\nHost: t\r\nConnection: upgrade\r\nUpgrade: verif\r\n\r\n".to_vec();
-                bytes.extend_from_slice(&body);
-                bytes.extend_from_slice(&get("/not-a-request"));
-                v.push(Case {
-                    label: format!("len{}/upgrade/{}", n, rl),
-                    bytes,
-                    read: rp,
-                    half_close: true,
-                    nontrivial: true,
-                });
+            // protocol upgrade: all remaining bytes of the connection, verbatim - whatever protocol
+            // the Upgrade header names (the library hands the connection over, it does not
+            // interpret the offer)
+            let ups: Vec<Option<&str>> = if n <= 2049 {
+                vec![Some("verif"), Some("websocket"), Some("h2c"), Some("H2C"), Some("h2c, websocket"), Some("TLS/1.0, HTTP/1.1"), None]
+            } else {
+                vec![Some("verif")]
+            };
+            for up in ups {
+                for (rl, rp) in read_programs(n, tier) {
+                    if up != Some("verif") && !(rl == "r7" || rl == "read_to_end") {
+                        continue;
+                    }
+                    let mut bytes = format!("GET /ws HTTP/1.1\r\nHost: t\r\nConnection: upgrade\r\n{}\r\n", up.map(|u| format!("Upgrade: {}\r\n", u)).unwrap_or_default()).into_bytes();
+                    bytes.extend_from_slice(&body);
+                    bytes.extend_from_slice(&get("/not-a-request"));
+                    v.push(Case {
+                        label: format!("len{}/upgrade-{}/{}", n, up.unwrap_or("no-upgrade-header"), rl),
+                        bytes,
+                        read: rp,
+                        half_close: true,
+                        nontrivial: true,
+                    });
+                }
             }
         }
         // the chunked coding named in other valid ways: in a list after another coding, on a
@@ -438,7 +450,7 @@ impl Check for C03 {
     }
     fn rule(&self, tier: Tier) -> String {
         let own = format!(
-            "the chunked coding named as the last member of a list, on a second Transfer-Encoding line, in capitals, with and without Content-Length; every framing also on HTTP/1.0 keep-alive requests (lengths 0, 3, 1025; thorough 0, 1, 3, 1024, 1025, 3000); bodies of 1 / 1024 / 1025 / 20000 bytes (declared, chunked) after a history of 64 / 100 / 1024 (thorough: 19 lengths from 63 to 4097) answered exchanges; bodies of 1 MiB+1 (thorough: also 3 MiB+5) declared / chunked by 65536 / chunked in one piece, read by 4096 / 100000 / n+1 / read_to_end; body length {:?} x framing {{Content-Length; chunked with chunkings one/bytewise/cut1/cutlast/cut1024/8k/thirds; Content-Length together with chunked in both header orders with equal and different values; none; Connection: upgrade}} x application read program {:?} (+2 reads after end-of-stream) x following bytes {:?}; plus chunk-size syntax {:?} and header-name/value letter case for lengths <= 1025 with read sizes 1/7/4096; plus every composition of bodies of 1..{} bytes; {} conversations, each on a real connection; bytes obtained, end-of-stream position and stickiness, body_length() and the fate of the following bytes compared with the reference model; non-trivial = body length > 0",
+            "the chunked coding named as the last member of a list, on a second Transfer-Encoding line, in capitals, with and without Content-Length; every framing also on HTTP/1.0 keep-alive requests (lengths 0, 3, 1025; thorough 0, 1, 3, 1024, 1025, 3000); bodies of 1 / 1024 / 1025 / 20000 bytes (declared, chunked) after a history of 64 / 100 / 1024 (thorough: 19 lengths from 63 to 4097) answered exchanges; bodies of 1 MiB+1 (thorough: also 3 MiB+5) declared / chunked by 65536 / chunked in one piece, read by 4096 / 100000 / n+1 / read_to_end; body length {:?} x framing {{Content-Length; chunked with chunkings one/bytewise/cut1/cutlast/cut1024/8k/thirds; Content-Length together with chunked in both header orders with equal and different values; none; Connection: upgrade with Upgrade: verif / websocket / h2c / H2C / lists / absent}} x application read program {:?} (+2 reads after end-of-stream) x following bytes {:?}; plus chunk-size syntax {:?} and header-name/value letter case for lengths <= 1025 with read sizes 1/7/4096; plus every composition of bodies of 1..{} bytes; {} conversations, each on a real connection; bytes obtained, end-of-stream position and stickiness, body_length() and the fate of the following bytes compared with the reference model; non-trivial = body length > 0",
             lengths(tier), read_programs(0, tier).iter().map(|x| x.0.clone()).collect::<Vec<_>>(), tails(tier).iter().map(|t| t.0).collect::<Vec<_>>(), ALL_SYNTAX, if full(tier) { 6 } else { 4 }, cases(tier).len()
         );
         format!("{} || {} {:?}", own, crate::props::product::RULE, PRODUCT_CLAUSES)
